@@ -4,9 +4,9 @@ import re
 
 from sa import run as _run
 from sa import q as Q
-from sa.cfg import cfg_of
+from sa.cfg import cfg_of, PathBoundExceeded
 from sa.pathsim import PathSim, C, NULL
-from sa.q import cond_atoms, path_end, strip_sv, sv_field_path, atomic_op, noepoch, lock_state, sv_mentions
+from sa.q import norm_cond, node_line, cond_atoms, path_end, strip_sv, sv_field_path, atomic_op, noepoch, lock_state, sv_mentions
 from . import e2, fc
 from .C09 import collide_rule
 
@@ -23,6 +23,9 @@ EXPLANATION = (
     "where the head CAS (do_dequeue) succeeded, and the embedded dummy node is never retired. RWQueue: head/tail pointers are read and written "
     "only inside the scope of the corresponding lock. FCQueue: an enqueue is paired with a dequeue only when the underlying queue is empty, "
     "collide() pairs an enqueue with a dequeue, hands the value over and completes both records once; op-codes agree with fc_apply. "
+    "'Empty' is reported from a double-collected snapshot. Once a re-read of m_pHead / m_pTail differed from the operation's hazard-protected snapshot, "
+    "nothing is published (no CAS / store on another location, no chain freeing) before the snapshot is retaken (a self-validating CAS on that "
+    "location is allowed). "
     "NOT decided: FIFO order, linearizability, lost/duplicated items under races.")
 ASSUMPTIONS = ["clang CFG (-DNDEBUG)", "necessary conditions only"]
 R = "Otherwise a dequeued node is read after being freed, an item is disposed while still linked, or a non-FIFO pairing is produced (C06)."
@@ -216,5 +219,130 @@ def r06_5(ctx):
 r06_5.rule_id = "R06.5"
 
 
-RULES = [r06_1, r06_2, r06_3, r06_4, r06_5]
-FLOORS = {"R06.1": 12, "R06.2": 8, "R06.3": 6, "R06.4": 6, "R06.5": 3}
+_SV_CACHE = {}
+
+
+def _self_validating(ctx, F, q, fld):
+    """callee q (same class instantiation as F): on every path the first publishing action is a CAS on this->fld whose expected value is the
+    callee's first parameter, and nothing else is published on the paths where that CAS fails"""
+    key = (q, F.ct, fld)
+    if key in _SV_CACHE:
+        return _SV_CACHE[key]
+    res = False
+    for G in ctx.db.find(q=q):
+        if G.ct != F.ct or not G.params:
+            continue
+        res = True
+        try:
+            paths = PathSim(G, bound=4000).run()
+        except PathBoundExceeded:
+            res = False
+            break
+        for p in paths:
+            cas = None
+            failed = False
+            for e in p.events:
+                if e.kind == "branch" and cas is not None and noepoch(e.val) == noepoch(cas.val):
+                    atom, pol = norm_cond(e.val)
+                    failed = (e.extra[1] != pol) if isinstance(e.extra, tuple) else False
+                if e.kind != "call" or not e.q:
+                    continue
+                op = atomic_op(e)
+                pub = (op and op != "load") or re.search(r"::(dispose_node|dispose_result|retire)$", e.q)
+                if not pub:
+                    continue
+                if cas is None:
+                    tgt = noepoch(e.obj) if isinstance(e.obj, tuple) else None
+                    exp = noepoch(e.args[0]) if e.args else None
+                    if not (op and op.startswith("compare_exchange") and tgt == ("fld", ("this",), fld)
+                            and isinstance(exp, tuple) and exp[:1] == ("p",) and exp[1] == G.params[0]["d"]):
+                        res = False
+                    cas = e
+                elif failed:
+                    res = False
+        break
+    _SV_CACHE[key] = res
+    return res
+
+
+def r06_6(ctx):
+    """stale snapshot => restart: once a re-read of m_pHead / m_pTail was found to differ from the operation's snapshot of it, nothing is
+    published (no CAS / store on another location, no chain freeing) until the snapshot is taken again.  The snapshot is hazard-protected, so
+    the location never returns to that value (no ABA): a later 're-read equals snapshot' outcome on the same path is infeasible and pruned."""
+    n = 0
+    for F in ctx.db.funcs.values():
+        if not re.match(r"cds::intrusive::(MSQueue|MoirQueue|BasketQueue|OptimisticQueue)::(do_dequeue|enqueue|fix_list)$", F.q):
+            continue
+        try:
+            paths = PathSim(F, bound=20000).run()
+        except PathBoundExceeded:
+            ctx.broken("path bound exceeded in %s" % F.q)
+            continue
+        for p in paths:
+            ev = p.events
+            src = {}      # value -> (field name, event index, 'snap' | 'load')
+            for i, e in enumerate(ev):
+                if e.kind != "call" or not e.q or e.val is None:
+                    continue
+                if e2.PROTECT.search(e.q):
+                    locs = [a for a in e.args if isinstance(a, tuple) and a[:1] == ("fld",) and noepoch(a)[1] == ("this",)]
+                    if locs:
+                        src[noepoch(e.val)] = (noepoch(locs[0])[2], i, "snap")
+                elif atomic_op(e) == "load" and isinstance(e.obj, tuple) and noepoch(e.obj)[:2] == ("fld", ("this",)):
+                    src[noepoch(e.val)] = (noepoch(e.obj)[2], i, "load")
+            stale = {}    # (field, snapshot value) -> branch event that saw the difference
+            feasible = True
+            was_stale = None
+            violated = False
+            for i, e in enumerate(ev):
+                if e.kind == "branch" and isinstance(e.extra, tuple) and e.extra[0] != "switch":
+                    atom, pol = norm_cond(e.val)
+                    atom = noepoch(atom)
+                    if isinstance(atom, tuple) and atom[:1] == ("op",) and atom[1] in ("==", "!=") and len(atom) == 4:
+                        a, b = atom[2], atom[3]
+                        if a in src and b in src and src[a][0] == src[b][0] and src[a][1] != src[b][1]:
+                            snap, fresh = (a, b) if src[a][1] < src[b][1] else (b, a)
+                            equal = ((e.extra[1] == pol) == (atom[1] == "=="))
+                            key = (src[snap][0], snap)
+                            n += 1
+                            if not equal:
+                                stale.setdefault(key, e)
+                                was_stale = was_stale or (key, e)
+                            elif key in stale:
+                                feasible = False
+                                break
+                elif e.kind == "call" and e.q and e2.PROTECT.search(e.q) and noepoch(e.val) in src and src[noepoch(e.val)][2] == "snap":
+                    # the snapshot of that location is taken again
+                    fld = src[noepoch(e.val)][0]
+                    for k in [k for k in stale if k[0] == fld]:
+                        del stale[k]
+                elif stale and e.kind == "call" and e.q:
+                    op = atomic_op(e)
+                    eff = None
+                    if op and op != "load":
+                        tgt = noepoch(e.obj) if isinstance(e.obj, tuple) else None
+                        if not (tgt is not None and tgt[:2] == ("fld", ("this",)) and any(k[0] == tgt[2] for k in stale)):
+                            eff = "atomic %s on %s" % (op, "->".join(sv_field_path(e.obj)[-2:]) or "?")
+                    elif re.search(r"::(free_chain|dispose_node|dispose_result|fix_list)$", e.q):
+                        eff = "call of " + e.q.split("::")[-1]
+                        # a helper whose every effect sits behind its own successful CAS 'stale location: snapshot -> new' validates for itself
+                        if e.args and any(k[1] == noepoch(e.args[0]) and _self_validating(ctx, F, e.q, k[0]) for k in stale):
+                            eff = None
+                    if eff:
+                        k = sorted(stale, key=repr)[0]
+                        ctx.bad("R06.6", F, "after a re-read of the queue's %s differed from the operation's snapshot nothing is published before the snapshot is retaken" % k[0], e.node,
+                                detail="%s after the validation at line %s failed (no later re-validation on this path). The values read through the stale snapshot "
+                                "(next pointers, marks) may describe nodes that were already dequeued - an item is handed out twice or lost. %s"
+                                % (eff, node_line(stale[k].node) if stale[k].node is not None else "?", R), sig="stale-snapshot:" + k[0])
+                        violated = True
+                        break
+            if feasible and was_stale and not violated:
+                ctx.ok("R06.6", F, "after a re-read of the queue's %s differed from the operation's snapshot nothing is published before the snapshot is retaken" % was_stale[0][0],
+                       was_stale[1].node, sig="stale-snapshot:" + was_stale[0][0])
+    if n < 6:
+        ctx.broken("head / tail re-validation branches not found (%d)" % n)
+r06_6.rule_id = "R06.6"
+
+
+RULES = [r06_1, r06_2, r06_3, r06_4, r06_5, r06_6]
+FLOORS = {"R06.1": 12, "R06.2": 8, "R06.3": 6, "R06.4": 6, "R06.5": 3, "R06.6": 6}
